@@ -314,6 +314,9 @@ func (f *stubFetcher) GetTx(ctx context.Context, txid bitcoin.Hash32) (*wire.Msg
 type stepNode struct {
 	ctx       context.Context
 	blockCtx  context.Context // optional role-tagged context for ProcessBlock (harness-owned schedules)
+	// optional hooks around ProcessBlock in blockStep (fault injection inside one block)
+	beforeBlock func(h bitcoin.Hash32)
+	afterBlock  func(h bitcoin.Hash32, err error)
 	delivered int             // peer messages handed to the node so far (budget, see deliverNext)
 	cfg       config.Config
 	store     *verifkit.MemStore
@@ -519,8 +522,14 @@ func (sn *stepNode) blockStep() bool {
 	if sn.blockCtx != nil {
 		bctx = sn.blockCtx
 	}
+	if sn.beforeBlock != nil {
+		sn.beforeBlock(*bh.BlockHash())
+	}
 	var err0 error
 	guard("ProcessBlock", func() { err0 = sn.node.ProcessBlock(bctx, block) })
+	if sn.afterBlock != nil {
+		sn.afterBlock(*bh.BlockHash(), err0)
+	}
 	sn.trace("blockstep %s -> %v", sn.describe(&wire.MsgBlock{Header: bh}), err0)
 	if err := err0; err != nil {
 		c := errors.Cause(err)
